@@ -5,14 +5,19 @@ import common, fns, sweeps, crops, labelled
 from common import quiet, canon
 
 PROP = 'C06'
-LEAN_MODULES = ['XyzProofs.Props.C06', 'XyzProofs.Refine.Forwarding']
+LEAN_MODULES = ['XyzProofs.Props.C06', 'XyzProofs.Refine.Forwarding', 'XyzProofs.Refine.Lifecycle', 'XyzProofs.Props.C04Lifecycle']
 THEOREMS = ['ToDs.toDs_eq_labelLinear', 'Crop.c06_runner_eq_direct', 'Crop.c06_df_eq_direct', 'Crop.c06_store_eq_direct',
             'Crop.c06_reload_irrelevant', 'Crop.c04_reapLinear_full',
             # the direct runs the reaps are compared with: what the farmers forward (translated flow records, anchors_flow)
             'Forwarding.harvest_forwards', 'Forwarding.label_forwards', 'Forwarding.chain_run_combos', 'Forwarding.chain_run_cases',
-            'Forwarding.run_keeps_descriptions']
+            'Forwarding.run_keeps_descriptions',
+            # the sow / reap life cycle translated from the source (anchors_lifecycle.py)
+            'Lc.reapCombosToDs_refines', 'Lc.reapRunner_refines', 'Lc.sowCombos_refines', 'Lc.sowCases_refines', 'Lc.sowSamples_refines',
+            'Lc.saveInfo_refines', 'Lc.c06_lc_reaper_replays_runner', 'Lc.c06_lc_reaper_replays_to_ds', 'Lc.c06_lc_sow_constants_win',
+            'Lc.c06_lc_runner_constants_kept', 'Lc.c04_lc_sow_combos_ok', 'Lc.c04_lc_sow_cases_ok']
 ANCHORS = ['harvestDefersCleanup', 'samplesDefersCleanup', 'cleanUpDefault', 'isReady', 'sowerGetsExtra', 'sowerFlush',
-           'flowHarvestCombos', 'flowHarvestCases', 'flowLabel', 'flowRunCombos', 'flowRunCases', 'flowComboToDs', 'flowCaseToDs']
+           'flowHarvestCombos', 'flowHarvestCases', 'flowLabel', 'flowRunCombos', 'flowRunCases', 'flowComboToDs', 'flowCaseToDs',
+           'saveInfoLc', 'sowCasesLc', 'sowCombosLc', 'sowSamplesLc', 'reapCombosToDsLc', 'reapRunnerLc', 'calcCleanUp']
 RULE = ("Runner / Harvester / Sampler crops: runner descriptions as in C03 (1-3 outputs, internal dims from var_coords or "
         "constants, constants that are/are not dims, resources, attrs, to_df), grids and case lists with batching and "
         "shuffle as in C04, harvester with an existing store (none / disjoint / overlapping) and each overwrite policy, "
